@@ -225,6 +225,147 @@ def quote_rule(facts, res):
                         % (cond_lit, tm), f["file"], f["line"], {}))
 
 
+# ------------------------------------------------------------------------------------------
+# R04-4 quoting discipline, R04-5 value coverage of printed fields
+
+# fields that may stand between hard-coded quotes: the production they are parsed by derives no quote character
+QUOTE_FREE_FIELDS = {("XmlDocument", "version"): "VersionNum", ("XmlDocument", "encoding"): "EncName"}
+
+
+def _quote_free(prod):
+    """L(prod) contains no string with a quote character (automaton: L minus the quote-free strings is empty)."""
+    import xml10 as X
+    t = e2.expand_spec(X.P, X.P[prod], set())
+    free = e2.expand_spec(X.P, X.Minus(X.ANY, X.Alt(X.Containing('"'), X.Containing("'"))), set())
+    sets, atoms = {UNIVERSE}, set()
+    A.collect_sets(t, sets, atoms)
+    A.collect_sets(free, sets, atoms)
+    b = A.Builder(A.Alphabet(sets, atoms))
+    return b.dfa_of(t).minus(b.dfa_of(free)).shortest() is None
+
+
+def _local_origin(f, name):
+    """What a bare identifier printed by a template is bound to: ('field', x) / ('literal', None) / ('other', None)."""
+    for n in walk(f["body"]):
+        init = None
+        if n.get("s") == "Let" and any(p.get("p") == "Bind" and p.get("name") == name for p in walk(n["pat"])):
+            init = n.get("init")
+        if n.get("k") == "Let" and any(p.get("p") == "Bind" and p.get("name") == name for p in walk(n["pat"])):
+            init = n.get("init")
+        if init is None:
+            continue
+        if init.get("k") == "If":
+            leaves = []
+            for br in ("then", "else"):
+                b = init.get(br) or {}
+                e = b.get("expr") if b.get("k") == "Block" else b
+                leaves.append(isinstance(e, dict) and e.get("k") == "Lit")
+            if all(leaves):
+                return ("literal", None)
+        flds = [m["name"] for m in walk(init) if m.get("k") == "Field" and m["a"].get("name") == "self"]
+        if flds:
+            return ("field", flds[0])
+        return ("other", None)
+    return ("other", None)
+
+
+def printers(facts):
+    out = []
+    for ty in ITEM_TYPES:
+        for tr, m in (("std::fmt::Display", "fmt"), ("IndentedDisplay", "indented")):
+            f = facts.fn_opt("xml_info::<%s as %s>::%s" % (ty, tr, m))
+            if f is not None and "body" in f:
+                out.append((ty, m, f))
+    return out
+
+
+def r04_4(facts, res):
+    """Hard-coded quotes in a printer may only surround values that cannot contain a quote; every other string goes through
+    escape(), which picks the delimiter from the value."""
+    st = res.rule("R04-4", instances=0)
+    safe = {k: _quote_free(v) for k, v in QUOTE_FREE_FIELDS.items()}
+    for k, ok in safe.items():
+        if not ok:
+            raise BrokenCheck("R04-4: production %s derives a quote character" % QUOTE_FREE_FIELDS[k])
+    for ty, m, f in printers(facts):
+        seen = set()
+        for n in walk(f["body"]):
+            if not (n.get("k") in ("Call", "MethodCall") and n.get("mac", "").startswith(("write", "format")) and n.get("snip")):
+                continue
+            if (n.get("ln"), n["snip"]) in seen:
+                continue
+            seen.add((n.get("ln"), n["snip"]))
+            tmpl, args = split_args(n["snip"])
+            if tmpl is None or not ('"' in tmpl or "'" in tmpl):
+                continue
+            st["instances"] += 1
+            args = args[1:] if args and args[0] == "f" else args
+            key = "%s::%s|%s" % (ty, m, tmpl)
+            if "{" not in tmpl and tmpl.count('"') % 2 == 0 and tmpl.count("'") % 2 == 0:
+                res.oblige(1, True)      # a constant with balanced quotes
+                continue
+            if "{" not in tmpl:
+                res.oblige(1, False)
+                res.add(Finding("R04-4", key, "%s writes a bare delimiter %r around a value that is streamed separately: a value containing "
+                                "that quote ends the literal early; use escape()" % (f["path"], tmpl), f["file"], n.get("ln"), {}))
+                continue
+            bad = []
+            for a in args:
+                mm = re.search(r"self\.(\w+)", a)
+                if mm:
+                    origin = ("field", mm.group(1))
+                elif re.match(r"^\w+$", a):
+                    origin = _local_origin(f, a)
+                elif re.match(r'^".*"$', a):
+                    origin = ("literal", None)
+                else:
+                    origin = ("other", None)
+                if origin[0] == "literal" or (origin[0] == "field" and safe.get((ty, origin[1]))):
+                    continue
+                bad.append(a)
+            res.oblige(1, not bad)
+            res.sample({"rule": "R04-4", "printer": f["path"], "template": tmpl, "args": args, "verdict": "quote-free" if not bad else "dynamic"}, limit=40)
+            if bad:
+                res.add(Finding("R04-4", key, "%s writes %s between hard-coded quotes (%r): a value containing that quote is printed as text the "
+                                "parser rejects; use escape()" % (f["path"], bad, tmpl), f["file"], n.get("ln"), {}))
+    if st["instances"] < 6:
+        raise BrokenCheck("R04-4: %d quoted templates in printers (floor 6)" % st["instances"])
+
+
+def _pat_is_presence(p):
+    """Some(binding) / Some(_) - refutable only in the absent case."""
+    if p.get("p") == "TupleStruct" and str(p.get("path", "")).endswith("Some") and len(p.get("pats", [])) == 1:
+        q = p["pats"][0]
+        while q.get("p") in ("Ref", "Deref") and "pat" in q:
+            q = q["pat"]
+        return q.get("p") in ("Bind", "Wild") and "sub" not in q
+    return False
+
+
+def r04_5(facts, res):
+    """A printer may skip a field only when it is absent: an `if let` over a field of self without else must be
+    `Some(binding)`; a literal or variant below it (Some(true), Some(Kind::A)) silently drops the other values."""
+    st = res.rule("R04-5", instances=0)
+    for ty, m, f in printers(facts):
+        for n in walk(f["body"]):
+            if n.get("k") != "If" or n["cond"].get("k") != "Let":
+                continue
+            c = n["cond"]
+            flds = [x["name"] for x in walk(c["init"]) if x.get("k") == "Field" and x["a"].get("name") == "self"]
+            if not flds:
+                continue
+            st["instances"] += 1
+            writes_else = "else" in n and any(x.get("mac", "").startswith("write") for x in walk(n["else"]))
+            ok = _pat_is_presence(c["pat"]) or writes_else
+            res.oblige(1, ok)
+            if not ok:
+                res.add(Finding("R04-5", "%s::%s|%s" % (ty, m, flds[0]), "%s prints field `%s` only for some of its values (refutable pattern below "
+                                "Some and no else branch): the other values are lost in a round trip" % (f["path"], flds[0]),
+                                f["file"], n.get("ln"), {}))
+    if st["instances"] < 15:
+        raise BrokenCheck("R04-5: %d conditional field prints (floor 15)" % st["instances"])
+
+
 def run(facts, tier):
     res = Result("C04")
     res.explanation = (
@@ -232,7 +373,9 @@ def run(facts, tier):
         "nothing loses the item in a round trip); R04-2 for the text-like items the printer's templates, with each hole filled "
         "by the language the parser stores in that field, are included in the production that reads them back (automaton "
         "inclusion, one check per printing path), and escape() picks the quote that the value does not contain; R04-3 every "
-        "field that is printed is compared by PartialEq (or is on the reasoned list).")
+        "field that is printed is compared by PartialEq (or is on the reasoned list); R04-4 hard-coded quotes in a printer "
+        "surround only values whose production derives no quote (version, encoding, literals), everything else is quoted by "
+        "escape(); R04-5 a printer skips a field only when it is absent (if-let patterns are Some(binding)).")
     res.assumptions = ["equality of the re-parsed document and the fixpoint of the printer are not computed",
                        "R04-2 covers comment, CDATA, PI, character / entity reference and text items; element and DTD items are covered by R04-1/R04-3 only"]
     # ---- R04-1
@@ -252,6 +395,8 @@ def run(facts, tier):
         raise BrokenCheck("R04-1: %d printer impls (floor 30)" % st["instances"])
     r04_2(facts, res)
     quote_rule(facts, res)
+    r04_4(facts, res)
+    r04_5(facts, res)
     # ---- R04-3
     st3 = res.rule("R04-3", instances=0)
     for ty in ITEM_TYPES:
